@@ -431,18 +431,31 @@ def rule_factories(ctx):
         fn = mod.funcs.get(fnname)
         ctx.require(fn is not None, f"{q} not found")
         ctx.analysed(fn)
-        g, mf, res = an.get(fn)
-        rets = [n for n in g.stmt_nodes() if n.kind == "stmt" and isinstance(n.ast, ast.Return)]
-        ok = len(rets) == 2
-        for r in rets:
-            small = any(f[0] == "any" for f in mf.at(r))  # length is None or length < 128
-            tests = [n for n in g.stmt_nodes() if n.kind == "test"]
-            at = set(norm.atoms(tests[0].ast, False, res)) if tests else set()
-            big = {("is", "length", ("c", None), False), ("lt", ("e", "length"), ("c", 128), False)} <= set(mf.at(r))
-            callee = norm.text(r.ast.value.func) if isinstance(r.ast.value, ast.Call) else None
-            args = [norm.text(a) for a in r.ast.value.args] if isinstance(r.ast.value, ast.Call) else None
-            ok = ok and args == ["mask"] and ((callee == "XorMaskerShifted1") == big) and ((callee == "XorMaskerSimple") == (not big))
-        ctx.ob(f"{q}: Simple below 128 octets (or unknown length), Shifted1 from 128, same key", ok, "threshold / selection changed", fn.loc())
+        # cell-wise over the announced length: which implementation is constructed, and with which key
+        from ..core.tiny import Tiny, Sym
+        probs = []
+        try:
+            prm = fn.params()
+            for length in (None, 0, 1, 127, 128, 129, 70000):
+                key = Sym("key")
+                built = []
+
+                def default(f_, a_, k_=None):
+                    built.append((f_, list(a_), dict(k_ or {})))
+                    return Sym(f"instance-of-{f_}")
+                env = {prm[0]: key}
+                if len(prm) > 1:
+                    env[prm[1]] = length
+                t = Tiny(env, default_call=default)
+                r = t.run([x for x in fn.node.body if not (isinstance(x, ast.Expr) and isinstance(x.value, ast.Constant))])
+                want = "XorMaskerSimple" if (length is None or length < 128) else "XorMaskerShifted1"
+                okc = r[0] == "return" and isinstance(r[1], Sym) and r[1].name == f"instance-of-{want}" and len(built) == 1 and built[0][1][:1] == [key] and len(built[0][1]) == 1
+                if not okc:
+                    probs.append(f"length {length}: {r[0]} {r[1]} built {[(b_[0], b_[1]) for b_ in built]}, expected {want}(key)")
+            ok = not probs
+        except AnalysisError as e:
+            raise AnalysisError(f"[C15.3-factory-agreement] {q} outside the modelled subset: {e}")
+        ctx.ob(f"{q}: Simple below 128 octets (or unknown length), Shifted1 from 128, same key [7 cells]", ok, "; ".join(probs[:2]), fn.loc())
 
 
 def rule_mask_policy(ctx):
@@ -452,36 +465,79 @@ def rule_mask_policy(ctx):
     # sendFrame
     fn = wsp.methods["sendFrame"]
     ctx.analysed(fn)
-    g, mf, res = an.get(fn)
-    bit = [n for n in g.stmt_nodes() if n.kind == "stmt" and isinstance(n.ast, ast.AugAssign) and norm.text(n.ast.target) == "b1" and
-           isinstance(n.ast.op, ast.BitOr) and norm.key(n.ast.value, res) == ("c", 128)]
-    ctx.require(len(bit) == 1, "sendFrame: mask bit assignment not found")
-    tests = [n for n in g.stmt_nodes() if n.kind == "test" and any(m is bit[0] for m, lab in n.succ if lab and lab[0] == "T")]
-    ctx.require(len(tests) == 1, "sendFrame: mask condition not found")
-    neg = set(norm.atoms(tests[0].ast, False, res))
-    want_any = {("truth", "mask", None, False)}
-    ok = ("truth", "mask", None, False) in neg and len([f for f in neg if f[0] == "any"]) == 2
-    roles = [f for f in neg if f[0] == "any"]
-    ment = [set(norm.mentions(f)) for f in roles]
-    ok = ok and any({"self.factory.isServer", "self.maskClientFrames"} <= m for m in ment) and any({"self.factory.isServer", "self.maskServerFrames"} <= m for m in ment)
-    # polarity of the role tests
-    cond = tests[0].ast
-    role_ok = isinstance(cond, ast.BoolOp) and isinstance(cond.op, ast.Or) and len(cond.values) == 3
-    if role_ok:
-        a1 = set(norm.atoms(cond.values[1], True, res))
-        a2 = set(norm.atoms(cond.values[2], True, res))
-        role_ok = a1 == {("truth", "self.factory.isServer", None, False), ("truth", "self.maskClientFrames", None, True)} and \
-            a2 == {("truth", "self.factory.isServer", None, True), ("truth", "self.maskServerFrames", None, True)}
-    ctx.ob("sendFrame: masked iff explicit key, or client with maskClientFrames, or server with maskServerFrames", ok and role_ok, f"condition {norm.text(cond)}", fn.loc(cond))
-    keygen = [n for n in g.stmt_nodes() if n.kind == "stmt" and isinstance(n.ast, ast.Assign) and norm.text(n.ast.targets[0]) == "mask"]
-    ok = len(keygen) == 1 and norm.text(keygen[0].ast.value) == "struct.pack('!I', random.getrandbits(32))" and ("truth", "mask", None, False) in mf.at(keygen[0])
-    ctx.ob("sendFrame: a fresh random 32-bit key per frame when none is given", ok, "key generation changed", fn.loc())
-    mk = [(n, c) for n in g.stmt_nodes() for c in node_calls(n) if call_name(c) == "create_xor_masker"]
-    ok = len(mk) == 1 and [norm.text(a) for a in mk[0][1].args] == ["mask", "l"] and bit[0].id in g.reachable(g.entry) and g.always_preceded_by(mk[0][0], lambda x: x is bit[0])
-    ctx.ob("sendFrame: payload masked with that key when the mask bit is set", ok, "masker creation changed", fn.loc())
-    mvs = [n for n in g.stmt_nodes() if n.kind == "stmt" and isinstance(n.ast, ast.Assign) and norm.text(n.ast.targets[0]) == "mv"]
-    okmv = len(mvs) == 3 and any(norm.text(n.ast.value) == "mask" and g.always_preceded_by(n, lambda x: x is bit[0]) for n in mvs)
-    ctx.ob("sendFrame: generated key is emitted in the frame", okmv, "mask octets no longer written", fn.loc())
+    # cell-wise over (explicit key given or not, role, mask options, applyMask, payload length): the frame carries the mask bit iff a key was
+    # given or the role policy says so; then the 4 key octets on the wire ARE the key the payload was XORed with -- the given one, or one
+    # drawn for this frame -- and the payload is passed through the masker built from that key (unless applyMask is off / nothing to mask)
+    from ..core.tiny import Tiny, Sym, Buf
+    import itertools
+
+    def inl(name):
+        m_ = ctx.program.lookup_method(wsp, name)
+        return m_.node if (m_ is not None and name.startswith("_") and name not in ("_trigger", "_send", "_fail_connection")) else None
+    body = [x for x in fn.node.body if not (isinstance(x, ast.Expr) and isinstance(x.value, ast.Constant))]
+    probs, cells = [], 0
+    prm = fn.params()
+    try:
+        for given, is_server, mcf, msf, apply_, length in itertools.product((False, True), (False, True), (True, False), (False, True), (True, False), (0, 5, 300, 70000)):
+            cells += 1
+            keys, sent, maskers = [], [], []
+
+            def default(f_, a_, k_=None):
+                if f_ == "struct.pack" and a_ and a_[0] in ("!I", ">I"):
+                    k = Sym(f"key{len(keys)}", of=a_[1])
+                    keys.append(k)
+                    return k
+                if f_ == "struct.pack":
+                    return ("ext", a_[0], a_[1])
+                if f_ == "random.getrandbits":
+                    return Sym("random32", bits=a_[0])
+                if f_ == "create_xor_masker":
+                    mk_ = Sym("masker", key=a_[0], methods={"process": lambda d, key=a_[0]: ("masked", key, d)})
+                    maskers.append(list(a_))
+                    return mk_
+                if f_ == "self.sendData":
+                    sent.append(a_[0])
+                    return None
+                return Sym(f"<{f_}>")
+            explicit = Sym("key-given-by-the-caller") if given else None
+            payload = Buf(0, length)
+            env = {"self": Sym("protocol"), "opcode": 2, "payload": payload, "fin": True, "rsv": 0, "mask": explicit, "payload_len": None, "chopsize": None, "sync": False,
+                   "self.factory.isServer": is_server, "self.maskClientFrames": mcf, "self.maskServerFrames": msf, "self.applyMask": apply_, "self.logFrames": False,
+                   "self.trafficStats.outgoingWebSocketFrames": 0}
+            for p_ in prm[1:]:
+                env.setdefault(p_, None)
+            t = Tiny(env, default_call=default, inline_self=inl)
+            r = t.run(body)
+            want = given or (not is_server and mcf) or (is_server and msf)
+            cell = (f"{'explicit key' if given else 'no key given'}, {'server' if is_server else 'client'}, maskClientFrames={mcf}, maskServerFrames={msf}, "
+                    f"applyMask={apply_}, {length} payload octet(s)")
+            if r[0] == "raise" or len(sent) != 1 or not (isinstance(sent[0], tuple) and sent[0][0] == "joined" and len(sent[0][1]) == 5):
+                probs.append(f"{cell}: frame not written as [octet, octet, ext-length, key, payload] ({r[0]} {str(r[1])[:50]})")
+                continue
+            h0, h1, ext, mv, plm = sent[0][1]
+            bit = isinstance(h1, tuple) and h1[0] == "octets" and bool(h1[1] & 0x80)
+            if bit != want:
+                probs.append(f"{cell}: mask bit {'set' if bit else 'clear'}, expected {'set' if want else 'clear'}")
+                continue
+            if not want:
+                if not (isinstance(mv, Buf) and len(mv) == 0) or plm is not payload:
+                    probs.append(f"{cell}: unmasked frame carries key octets {mv} / payload {plm}")
+                continue
+            used = explicit if given else (keys[0] if len(keys) == 1 else None)
+            fresh = given or (isinstance(used, Sym) and isinstance(used.attrs.get("of"), Sym) and used.attrs["of"].name == "random32" and used.attrs["of"].attrs.get("bits") == 32)
+            if not fresh:
+                probs.append(f"{cell}: no 32-bit random key drawn for this frame")
+            elif mv is not used:
+                probs.append(f"{cell}: the mask bit is set but the key octets written are {mv}, expected the key {used} (the peer cannot un-mask the frame)")
+            elif length > 0 and apply_:
+                if not (isinstance(plm, tuple) and plm[0] == "masked" and plm[1] is used and plm[2] is payload and maskers and maskers[0][0] is used):
+                    probs.append(f"{cell}: payload on the wire is {plm}, expected the payload XORed with the key on the wire")
+            elif plm is not payload:
+                probs.append(f"{cell}: payload on the wire is {plm}, expected the payload as given")
+        ctx.ob(f"sendFrame: mask bit iff explicit key or role policy; the key octets on the wire are the key the payload is XORed with (given, or drawn per frame) [{cells} cells]",
+               not probs, "; ".join(sorted(set(probs))[:2]), fn.loc())
+    except AnalysisError as e:
+        raise AnalysisError(f"[C15.4-mask-policy] sendFrame outside the modelled subset: {e}")
     # beginMessageFrame
     fn = wsp.methods["beginMessageFrame"]
     ctx.analysed(fn)
@@ -519,7 +575,7 @@ def rule_mask_policy(ctx):
                    "self.trafficStats.outgoingWebSocketFrames": 0, "WebSocketProtocol.STATE_OPEN": S_OPEN, "WebSocketProtocol.SEND_STATE_MESSAGE_BEGIN": S_BEGIN,
                    "WebSocketProtocol.SEND_STATE_INSIDE_MESSAGE": S_INSIDE,
                    "WebSocketProtocol.SEND_STATE_INSIDE_MESSAGE_FRAME": ctx.program.class_const(wsp, "SEND_STATE_INSIDE_MESSAGE_FRAME"), "int": "int"}
-            t = Tiny(env, default_call=lambda f_, a_, k_=None: "int" if f_ == "type" else default(f_, a_, k_))
+            t = Tiny(env, default_call=lambda f_, a_, k_=None: "int" if f_ == "type" else default(f_, a_, k_), inline_self=inl)
             r = t.run(body)
             want = (not is_server and mcf) or (is_server and msf)
             cell = f"{'server' if is_server else 'client'}, maskClientFrames={mcf}, maskServerFrames={msf}, {'first' if sstate == S_BEGIN else 'later'} frame, length {length}"
